@@ -38,13 +38,21 @@ func (m Map) ReferenceOrigins(ctx context.Context) reference.Origins {
 					origins = append(origins, expr.ReferenceOrigins(ctx)...)
 				}
 			}
-			// a quoted key with interpolation, such as "${var.foo}-bar"
-			tplExpr, ok := keyExpr.Wrapped.(*hclsyntax.TemplateExpr)
-			if ok && !tplExpr.IsStringLiteral() {
+			// a quoted key with interpolation, such as "${var.foo}-bar" or "${var.foo}"
+			var interpolatedKey hclsyntax.Expression
+			switch tplExpr := keyExpr.Wrapped.(type) {
+			case *hclsyntax.TemplateExpr:
+				if !tplExpr.IsStringLiteral() {
+					interpolatedKey = tplExpr
+				}
+			case *hclsyntax.TemplateWrapExpr:
+				interpolatedKey = tplExpr
+			}
+			if interpolatedKey != nil {
 				keyCons := schema.AnyExpression{
 					OfType: cty.String,
 				}
-				kExpr := newExpression(m.pathCtx, tplExpr, keyCons)
+				kExpr := newExpression(m.pathCtx, interpolatedKey, keyCons)
 				if expr, ok := kExpr.(ReferenceOriginsExpression); ok {
 					origins = append(origins, expr.ReferenceOrigins(ctx)...)
 				}
